@@ -23,13 +23,14 @@ REGISTRY = {
     },
     "C02": {
         "engine": "engine_deser",
-        "theorems": [(A + "ErrorsThm", "Api.C02_errors_eq_partial"), (A + "ErrorsThm", "Api.errors_eq_violations"),
+        "theorems": [(A + "ErrorsThm", "Api.C02_errors_eq_partial"), (A + "ErrorsThm", "Api.errors_eq_violations"), (A + "ErrorsOptThm", "Api.errors_optional"), (A + "ErrorsOptThm", "Api.C02_errors_optional"),
                      (A + "ObjErrorsThm", "Api.C02_object_level"), (A + "TablesThm", "Api.Tables.C02_error_templates"),
                      (A + "FieldLoopSrcThm", "Api.fieldLoop_matches_source"), (A + "FieldLoopSrcThm", "Api.fieldLoop_dep"), (A + "FieldLoopSrcThm", "Api.fieldLoop_covered"),
                      (A + "ObjTailSrcThm", "Api.tail_matches_source"), (A + "ConstraintsSrcThm", "Api.numErrors_matches_source"), (A + "ConstraintsSrcThm", "Api.strLenErrors_matches_source"),
                      (A + "ConstraintsSrcThm", "Api.listLenErrors_matches_source"), (A + "ConstraintsSrcThm", "Api.dictErrors_matches_source")],
         "partial": "list equation errors = violations on primitives / lists / tuples / NewTypes / annotations; per-object law (children = violating keys, including `missing property (required by [...])` of dependent_required, "
-                   "both directions) for ObjectMethod; order of name-keyed children, mappings and Optional not yet proved",
+                   "both directions) for ObjectMethod; Optional[T] over any method whose errors are the specification's (errors_optional: own messages, `expected null`, then the located errors - under the hypothesis "
+                   "that a rejection carries a message); order of name-keyed children and mappings not yet proved",
         "assumptions": MODEL_ASSUMPTIONS,
     },
     "C03": {
